@@ -676,7 +676,7 @@ theorem encode_go (fuel : Nat) (h : jt808_Header) (m : Header) (body : Bytes) (h
       X.ok (h', Frame.encode m h.ReplyID.toNat h.PlatformSerialNumber.toNat body) := by
   obtain ⟨rid, rattr, rver, rfrag, renc, rlen, rbcd, rser, rsum, rno, rpv⟩ := hrep
   unfold jt808_Header_Encode
-  have hm : make (4 : Int) = X.ok [0, 0, 0, 0] := rfl
+  have hm : makeCap (4 : Int) (30 : Int) = X.ok [0, 0, 0, 0] := rfl
   rw [hm]
   simp only [X.bind_ok]
   -- the message id
@@ -690,7 +690,7 @@ theorem encode_go (fuel : Nat) (h : jt808_Header) (m : Header) (body : Bytes) (h
       simp [this]
   obtain ⟨idv, hidv, hidn⟩ := hid
   simp only [hidv, X.bind_ok, put_first]
-  unfold jt808_BodyProperty_encode
+  try unfold jt808_BodyProperty_encode
   simp only [X.bind_ok, put_second, hb15]
   -- the version byte
   have hpv : (h.ProtocolVersion == (3 : UInt8)) = decide (m.version = 1) := by
